@@ -398,6 +398,29 @@ func (s *Scanner) checkExtend() error {
 	return nil
 }
 
+// Overrun reports whether the token being scanned fills the window while
+// input remains: no further rune can be accepted into it.  A caller that
+// accepts runes in a loop and ignores why the loop ended (AcceptSeq) must ask,
+// or it will take the rest of an over-long token for the start of the next.
+//
+// A full window with nothing behind it looks the same from inside the buffer,
+// so Overrun asks the reader for one more byte.  The byte is not kept: the
+// caller is about to report an error.
+func (s *Scanner) Overrun() bool {
+	if len(s.peek) > 0 || s.checkExtend() == nil {
+		return false
+	}
+	if len(s.buf) == 0 || s.start != 0 || s.next != len(s.buf) || len(s.buf) < cap(s.buf) || s.readErr != nil {
+		return false
+	}
+	var one [1]byte
+	if n, err := io.ReadFull(s.r, one[:]); n == 0 {
+		s.readErr = err
+		return false
+	}
+	return true
+}
+
 func (s *Scanner) extend() bool {
 	if s.start == 0 {
 		return false
